@@ -170,9 +170,9 @@ def generate(seed, tier):
     sc = {"gens": gens, "ops": ops, "initially_alive": [not c for c in created_late]}
     # same seed in a *fresh interpreter* (other hash salt): rarely in quick (a subprocess costs ~2 s), often in thorough
     cousins = [g for g, sp in enumerate(gens) if "cousin_of" in sp]
-    if cousins and rw.random() < (0.6 if tier == "thorough" else 0.15):
+    if cousins and rw.random() < (0.3 if tier == "thorough" else 0.15):
         sc["xproc"] = rw.choice(cousins)            # its stream must not depend on what was built before it in this process
-    elif rw.random() < (0.05 if tier == "thorough" else 0.006):
+    elif rw.random() < (0.012 if tier == "thorough" else 0.006):
         sc["xproc"] = rw.randrange(len(gens))
     return sc
 
